@@ -20,3 +20,137 @@ package progress
 //@   requires iterations(s) != 0
 //@   modifies nothing
 //@   ensures result == ((s.FailedIterationDurations.Count * 100) % 18446744073709551616) / iterations(s)
+//@
+//@ // ---- C17 / C01: aggregation (sequential use). Abstract view of an accumulator: (count, sum, min, max),
+//@ // min == 0 meaning "no minimum yet".
+//@ pred wfDur(i *IterationDurations) = i.count >= 0 && i.sum >= 0 && i.min >= 0 && i.max >= 0 &&
+//@     (i.count == 0 ==> i.sum == 0 && i.min == 0 && i.max == 0) &&
+//@     (i.count > 0 ==> 0 < i.min && i.min <= i.max && i.count * i.min <= i.sum && i.sum <= i.count * i.max)
+//@ pred mergedMin(a int, b int) = a == 0 ? b : (b > 0 && b < a ? b : a)
+//@
+//@ func (*IterationDurations).Add
+//@   props C17 C01
+//@   requires nanoseconds > 0 && wfDur(i)
+//@   modifies i.sum, i.count, i.min, i.max
+//@   ensures [count] i.count == old(i.count) + 1 && i.sum == old(i.sum) + nanoseconds
+//@   ensures [max] i.max == max(old(i.max), nanoseconds)
+//@   ensures [min] i.min == (old(i.min) == 0 ? nanoseconds : min(old(i.min), nanoseconds))
+//@   ensures [wf] wfDur(i)
+//@
+//@ func (*IterationDurations).average
+//@   props C17
+//@   requires wfDur(i)
+//@   modifies nothing
+//@   ensures result.0 == (i.count == 0 ? 0 : i.sum / i.count) && result.1 == i.count
+//@
+//@ func (*IterationDurations).Snapshot
+//@   props C17 C01
+//@   requires wfDur(i)
+//@   modifies nothing
+//@   ensures [view] result.Count == i.count && result.Average == (i.count == 0 ? 0 : i.sum / i.count) && result.Min == i.min && result.Max == i.max
+//@   ensures [ordered] i.count > 0 ==> result.Min <= result.Average && result.Average <= result.Max
+//@
+//@ func (*IterationDurations).Update
+//@   props C17 C01
+//@   requires other != nil && wfDur(i) && wfDur(other) && i != other
+//@   modifies i.sum, i.count, i.min, i.max
+//@   ensures [merge] i.sum == old(i.sum) + other.sum && i.count == old(i.count) + other.count
+//@   ensures [min] i.min == mergedMin(old(i.min), other.min)
+//@   ensures [max] i.max == max(old(i.max), other.max)
+//@   ensures [wf] wfDur(i)
+//@
+//@ func (*IterationDurations).Reset
+//@   props C17 C01
+//@   modifies i.sum, i.count, i.min, i.max
+//@   ensures i.sum == 0 && i.count == 0 && i.min == 0 && i.max == 0 && wfDur(i)
+//@
+//@ pred wfStats(d *DurationStats) = wfDur(d.running) && wfDur(d.lifetime)
+//@
+//@ func (*DurationStats).Record
+//@   props C17 C01
+//@   requires nanoseconds > 0 && wfStats(d)
+//@   modifies d.running
+//@   ensures d.running.count == old(d.running.count) + 1 && d.running.sum == old(d.running.sum) + nanoseconds
+//@   ensures d.running.max == max(old(d.running.max), nanoseconds)
+//@   ensures d.running.min == (old(d.running.min) == 0 ? nanoseconds : min(old(d.running.min), nanoseconds))
+//@   ensures wfStats(d)
+//@
+//@ func (*DurationStats).CollectLifetime
+//@   props C17 C01
+//@   requires wfStats(d)
+//@   modifies d.running, d.lifetime
+//@   ensures [period] result.0.Count == old(d.running.count) && result.0.Min == old(d.running.min) && result.0.Max == old(d.running.max) &&
+//@           result.0.Average == (old(d.running.count) == 0 ? 0 : old(d.running.sum) / old(d.running.count))
+//@   ensures [lifetime] d.lifetime.count == old(d.lifetime.count) + old(d.running.count) && d.lifetime.sum == old(d.lifetime.sum) + old(d.running.sum) &&
+//@           d.lifetime.min == mergedMin(old(d.lifetime.min), old(d.running.min)) && d.lifetime.max == max(old(d.lifetime.max), old(d.running.max))
+//@   ensures [result1] result.1.Count == d.lifetime.count && result.1.Min == d.lifetime.min && result.1.Max == d.lifetime.max &&
+//@           result.1.Average == (d.lifetime.count == 0 ? 0 : d.lifetime.sum / d.lifetime.count)
+//@   ensures [cleared] d.running.count == 0 && d.running.sum == 0 && d.running.min == 0 && d.running.max == 0
+//@   ensures [monotone] d.lifetime.count >= old(d.lifetime.count)
+//@   ensures [ordered] d.lifetime.count > 0 ==> result.1.Min <= result.1.Average && result.1.Average <= result.1.Max
+//@   ensures [wf] wfStats(d)
+//@
+//@ // ---- whole-history accounting (sequential use): ghost aggregates of every Record call so far.
+//@ ghost var NrecS int
+//@ ghost var NrecF int
+//@ ghost var NrecD int
+//@ ghost var SumS int
+//@ ghost var SumF int
+//@ ghost var MinS int
+//@ ghost var MinF int
+//@ ghost var MaxS int
+//@ ghost var MaxF int
+//@ pred tracks(s *Stats) = wfStats(s.successfulIterationDurations) && wfStats(s.failedIterationDurations) &&
+//@     s.successfulIterationDurations.lifetime.count + s.successfulIterationDurations.running.count == NrecS &&
+//@     s.successfulIterationDurations.lifetime.sum + s.successfulIterationDurations.running.sum == SumS &&
+//@     mergedMin(s.successfulIterationDurations.lifetime.min, s.successfulIterationDurations.running.min) == MinS &&
+//@     max(s.successfulIterationDurations.lifetime.max, s.successfulIterationDurations.running.max) == MaxS &&
+//@     s.failedIterationDurations.lifetime.count + s.failedIterationDurations.running.count == NrecF &&
+//@     s.failedIterationDurations.lifetime.sum + s.failedIterationDurations.running.sum == SumF &&
+//@     mergedMin(s.failedIterationDurations.lifetime.min, s.failedIterationDurations.running.min) == MinF &&
+//@     max(s.failedIterationDurations.lifetime.max, s.failedIterationDurations.running.max) == MaxF &&
+//@     s.droppedIterationCount == NrecD && NrecD >= 0
+//@
+//@ func (*Stats).Record
+//@   props C17 C01
+//@   requires tracks(s)
+//@   requires (result == "success" || result == "fail") ==> nanoseconds > 0
+//@   requires NrecD < 18446744073709551615
+//@   modifies s.successfulIterationDurations.running, s.failedIterationDurations.running, s.droppedIterationCount,
+//@            NrecS, NrecF, NrecD, SumS, SumF, MinS, MinF, MaxS, MaxF
+//@   ghost before call (*DurationStats).Record #0 : NrecS = NrecS + 1 ; SumS = SumS + nanoseconds ; MinS = (MinS == 0 ? nanoseconds : min(MinS, nanoseconds)) ; MaxS = max(MaxS, nanoseconds)
+//@   ghost before call (*DurationStats).Record #1 : NrecF = NrecF + 1 ; SumF = SumF + nanoseconds ; MinF = (MinF == 0 ? nanoseconds : min(MinF, nanoseconds)) ; MaxF = max(MaxF, nanoseconds)
+//@   ghost before call (*Uint64).Add #0 : NrecD = NrecD + 1
+//@   ensures [tracks] tracks(s)
+//@   ensures [succ] NrecS == old(NrecS) + (result == "success" ? 1 : 0)
+//@   ensures [fail] NrecF == old(NrecF) + (result == "fail" ? 1 : 0)
+//@   ensures [drop] NrecD == old(NrecD) + (result == "dropped" ? 1 : 0)
+//@   ensures [period] s.successfulIterationDurations.running.count == old(s.successfulIterationDurations.running.count) + (result == "success" ? 1 : 0)
+//@
+//@ func (*Stats).Snapshot
+//@   props C17 C01
+//@   requires tracks(s)
+//@   modifies s.successfulIterationDurations, s.failedIterationDurations
+//@   ensures [tracks] tracks(s)
+//@   ensures [lifetime] result.SuccessfulIterationDurations.Count == NrecS && result.FailedIterationDurations.Count == NrecF && result.DroppedIterationCount == NrecD
+//@   ensures [figures] result.SuccessfulIterationDurations.Min == MinS && result.SuccessfulIterationDurations.Max == MaxS &&
+//@           result.SuccessfulIterationDurations.Average == (NrecS == 0 ? 0 : SumS / NrecS) &&
+//@           result.FailedIterationDurations.Min == MinF && result.FailedIterationDurations.Max == MaxF &&
+//@           result.FailedIterationDurations.Average == (NrecF == 0 ? 0 : SumF / NrecF)
+//@   ensures [period] result.SuccessfulIterationDurationsForPeriod.Count == old(s.successfulIterationDurations.running.count) &&
+//@           result.SuccessfulIterationDurationsForPeriod.Min == old(s.successfulIterationDurations.running.min) &&
+//@           result.SuccessfulIterationDurationsForPeriod.Max == old(s.successfulIterationDurations.running.max) &&
+//@           result.Period == period
+//@   ensures [cleared] s.successfulIterationDurations.running.count == 0 && s.failedIterationDurations.running.count == 0
+//@   ensures [ordered] (NrecS > 0 ==> result.SuccessfulIterationDurations.Min <= result.SuccessfulIterationDurations.Average && result.SuccessfulIterationDurations.Average <= result.SuccessfulIterationDurations.Max)
+//@
+//@ func (*Stats).Total
+//@   props C17 C01
+//@   requires tracks(s)
+//@   modifies s.successfulIterationDurations, s.failedIterationDurations
+//@   ensures [tracks] tracks(s)
+//@   ensures [lifetime] result.SuccessfulIterationDurations.Count == NrecS && result.FailedIterationDurations.Count == NrecF && result.DroppedIterationCount == NrecD
+//@   ensures [figures] result.SuccessfulIterationDurations.Min == MinS && result.SuccessfulIterationDurations.Max == MaxS &&
+//@           result.SuccessfulIterationDurations.Average == (NrecS == 0 ? 0 : SumS / NrecS) &&
+//@           result.FailedIterationDurations.Min == MinF && result.FailedIterationDurations.Max == MaxF &&
+//@           result.FailedIterationDurations.Average == (NrecF == 0 ? 0 : SumF / NrecF)
